@@ -35,3 +35,16 @@ func VerifXMLOptionsImmutable(n int) {
 }
 
 func verifOptM() *minify.M { return nil }
+
+// VerifXMLSharedState (C13): one call with symbolic options, with or without the inline parameter, on a shared option
+// struct and a shared *minify.M, under the write-set monitor: no store to memory that existed before the call.
+func VerifXMLSharedState(n int) {
+	o := &Minifier{KeepWhitespace: vBool("a")}
+	m := verifOptM()
+	var params map[string]string
+	if vBool("inlineparam") {
+		params = map[string]string{"inline": "1"}
+	}
+	in := verifSharedInput(n, verifXMLDocs)
+	verifNoSharedWrite(in, func(w *vWriter, r *vReader) error { return o.Minify(m, w, r, params) })
+}
